@@ -17,12 +17,21 @@ type stats struct {
 	lifetimeConnections uint64
 }
 
-func (s *stats) incrementConnections() {
-	defer s.logServerStats()
+// reserveConnection takes a connection slot if there is a free one. Checking
+// the limit and counting the connection happen under the same lock, so that a
+// burst of connection attempts can't get past the limit.
+func (s *stats) reserveConnection() error {
 	s.mutex.Lock()
+	if s.currentConnections >= config.Server.MaxConnections {
+		s.mutex.Unlock()
+		return fmt.Errorf("Exceeded max allowed concurrent connections of %d",
+			config.Server.MaxConnections)
+	}
 	s.currentConnections++
 	s.lifetimeConnections++
 	s.mutex.Unlock()
+	s.logServerStats()
+	return nil
 }
 
 func (s *stats) decrementConnections() {
@@ -51,17 +60,6 @@ func (s *stats) logServerStats() {
 	data["currentConnections"] = s.currentConnections
 	data["lifetimeConnections"] = s.lifetimeConnections
 	dlog.Server.Mapreduce("STATS", data)
-}
-
-func (s *stats) serverLimitExceeded() error {
-	s.mutex.Lock()
-	defer s.mutex.Unlock()
-
-	if s.currentConnections >= config.Server.MaxConnections {
-		return fmt.Errorf("Exceeded max allowed concurrent connections of %d",
-			config.Server.MaxConnections)
-	}
-	return nil
 }
 
 func (s *stats) start(ctx context.Context) {
